@@ -37,6 +37,12 @@ LAYOUTS = {
     "zstd5": dict(chunks="half", zstd=5),
     "zstd5+f32": dict(chunks="half", zstd=5, fletcher32=True),
     "zstd9-big": dict(chunks="big", maxshape="unl", zstd=9),
+    # pre-allocated datasets with a non-zero fill value of which only the
+    # first chunk was ever written (the other chunks do not exist in the
+    # file; reading them yields the fill value)
+    "prealloc": dict(chunks="third", prealloc=True),
+    "prealloc-gzip": dict(chunks="third", prealloc=True,
+                          compression="gzip"),
 }
 SCALARS = ["deform", "area_um", "bright_avg", "pos_x", "pos_y", "size_x",
            "size_y", "area_cvx", "area_msd", "tilt", "bright_sd", "temp"]
@@ -47,6 +53,18 @@ def _create(grp, name, data, layout):
     kw = {}
     shape = data.shape
     ch = spec.pop("chunks", None)
+    pre = spec.pop("prealloc", False)
+    if ch == "third":
+        if pre and data.dtype.kind in "fiu" and shape[0] >= 2:
+            rows = max(1, shape[0] // 3)
+            # finite: NaN positions would make volume uncomputable
+            fill = 7.25 if data.dtype.kind == "f" else 7
+            ds = grp.create_dataset(name, shape=shape, dtype=data.dtype,
+                                    chunks=(rows,) + shape[1:],
+                                    fillvalue=fill, **spec)
+            ds[:rows] = data[:rows]
+            return ds
+        ch = "half"
     if ch == "half":
         kw["chunks"] = (max(1, shape[0] // 2),) + shape[1:]
     elif ch == "big":
@@ -630,7 +648,7 @@ def _collision_case(args):
 
 def run(ctx):
     scratch = ctx.scratch
-    variants = range(0, 11, 1)
+    variants = range(0, len(LAYOUTS), 1)
     items = []
     for v in variants:
         items.append(("compress", {}, v, ctx.seed, scratch))
@@ -687,7 +705,7 @@ def run(ctx):
            "layout_kind_cells_per_file": ncells,
            "file_variants": len(list(variants)),
            "rule": "one case = (task, options, file variant); each file "
-                   "variant rotates the assignment of 11 storage layouts to "
+                   "variant rotates the assignment of 13 storage layouts to "
                    "12 scalar features, 3 image-like features, 3 traces, 6 "
                    "contour entries, 15 logs (fixed/variable length, empty), "
                    "4 tables (with attributes) and basin definitions; a "
